@@ -81,6 +81,8 @@ def quoted_slots(fmt):
         if j < 0:
             break
         inside = j > 0 and fmt[j - 1] == '"' and j + 2 < len(fmt) + 0 and fmt[j + 2:j + 3] == '"'
+        if not inside and j > 0 and fmt[j - 1] == "'" and fmt[j + 2:j + 3] == "'":
+            inside = "'"
         out.append((n, inside))
         n += 1
         i = j + 2
@@ -417,6 +419,22 @@ def run(ctx, idx):
                         continue
                     n_q += 1
                     arg = n.args[i]
+                    if inside == "'":
+                        # the reader decodes escapes in single-quoted strings exactly as in double-quoted ones (one STRING rule, one
+                        # decoding step): the writer owes the same escaping, of the backslash and then of the single quote
+                        ch1 = escape_chain(arg, list(funcs)) or []
+                        # under a test `"'" not in <text>` there is no single quote left to escape: the backslash alone is owed
+                        noq_ = any(isinstance(g_, ast.If) and any(x_ is n for b_ in g_.body for x_ in ast.walk(b_))
+                                   and any(isinstance(t_, ast.Compare) and len(t_.ops) == 1 and isinstance(t_.ops[0], ast.NotIn) and isinstance(t_.left, ast.Constant) and t_.left.value == "'"
+                                           for t_ in ([g_.test] + (list(g_.test.values) if isinstance(g_.test, ast.BoolOp) and isinstance(g_.test.op, ast.And) else [])))
+                                   for g_ in ast.walk(f.node))
+                        bs_ = ("\\", "\\\\")
+                        sq_ = ("'", "\\'")
+                        ok1 = bs_ in ch1 and ((sq_ in ch1 and ch1.index(bs_) < ch1.index(sq_)) or (noq_ and not any(a_ == "'" for a_, _ in ch1)))
+                        ctx.ob("C15.b", "%s::single-quoted(%s)#%d" % (f.key, fmt.strip()[:24], i), K.rel(f), n.lineno, ok1,
+                               "escaped: backslash, then the single quote" if ok1 else
+                               "the value is placed between single quotes without escaping the backslash and then the single quote: the reader decodes escapes in single-quoted strings too, so `C:\\temp\\new.csv` reads back with a tab and a newline, a trailing backslash swallows the closing quote, and a `'` ends the literal early")
+                        continue
                     ok, why = sanitised(arg, helpers)
                     # a name bound to a sanitised expression just before
                     if not ok and isinstance(arg, ast.Name):
